@@ -1,5 +1,7 @@
 import NA.Proofs.C03Plan
 import NA.Proofs.C03Spec
+import NA.Proofs.C03Members
+import NA.Proofs.C03Groups
 /-!
 # C03 — PAN-OS approve converges to the Netspoc-equivalent rulebase
 (with the PAN-OS theorems of C07, C08, C10; names prefixed `pan_`)
@@ -43,7 +45,7 @@ the plan (deletes in range order, `set` of every inserted rule deferred to the e
 by `move … where=before <next surviving rule>`) are all applicable in sequence, and they turn
 the device's rule sequence into the target's (`targetOrder`: device name at kept positions, new
 name at inserted positions, one entry per target rule). -/
-theorem pan_rules_converge (diff : Differ) (hd : GoodDiffer diff) (hinj : SuffixInj) (a b : Vsys)
+theorem pan_rules_converge (diff : Differ) (hd : GoodDiffer diff) (a b : Vsys)
     (ha : (ruleNames a.rules).Nodup) (hb : (ruleNames b.rules).Nodup) :
     runOrd (ruleNames a.rules) ((planVsys diff a b).filterMap ordOf) =
         some (targetOrder (ruleNames a.rules) (newRuleNames a b) (ruleScript diff a b)) ∧
@@ -52,7 +54,7 @@ theorem pan_rules_converge (diff : Differ) (hd : GoodDiffer diff) (hinj : Suffix
   obtain ⟨eq, hv, hn⟩ := ruleScript_good diff hd a b
   have hlenB := newRuleNames_length a b
   have hnd : (ruleNames a.rules ++ newRuleNames a b).Nodup :=
-    uniqNames_nodup_append hinj _ _ ha hb
+    uniqNames_nodup_append suffixInj _ _ ha hb
   constructor
   · rw [planVsys_ord]
     exact order_converges _ _ _ hv hn hnd
@@ -78,13 +80,13 @@ theorem pan_rules_converge (diff : Differ) (hd : GoodDiffer diff) (hinj : Suffix
 those the order operations give; if the whole plan is accepted the device carries the target's
 rule sequence; and whatever stops the run, it is never a missing rule, a taken rule name or a
 missing move destination (the C08 share of the rule order). -/
-theorem pan_rules_converge_on_device (diff : Differ) (hd : GoodDiffer diff) (hinj : SuffixInj)
+theorem pan_rules_converge_on_device (diff : Differ) (hd : GoodDiffer diff)
     (sh : Shared) (a b : Vsys) (ha : (ruleNames a.rules).Nodup) (hb : (ruleNames b.rules).Nodup) :
     ((execAll sh a (planVsys diff a b)).2.2 = none →
         ruleNames (execAll sh a (planVsys diff a b)).1.rules =
           targetOrder (ruleNames a.rules) (newRuleNames a b) (ruleScript diff a b)) ∧
       (∀ e, (execAll sh a (planVsys diff a b)).2.2 = some e → orderError e = false) := by
-  obtain ⟨hrun, _⟩ := pan_rules_converge diff hd hinj a b ha hb
+  obtain ⟨hrun, _⟩ := pan_rules_converge diff hd a b ha hb
   constructor
   · intro hnone
     have hk := ((execAll_count sh (planVsys diff a b) a).2).mp hnone
@@ -94,15 +96,106 @@ theorem pan_rules_converge_on_device (diff : Differ) (hd : GoodDiffer diff) (hin
   · intro e he
     exact execAll_no_order_error sh _ a _ hrun e he
 
+/-! ## Member lists (`pan_members_converge`) -/
+
+/-- **Member lists converge, both branches of the heuristic.**  `la` is the member list on the
+device (source or destination of rule `n`, or the members of a group), `lb` the target's; no
+element is an address-group of either side (Netspoc's lists: addresses only; lists holding
+groups: see F-C03e), no element twice.  Then for any valid script:
+* if the heuristic `2·d > u + 1` says "replace", `equalizeList` sends exactly one `edit` with
+  the target list, and the device list becomes `lb`;
+* otherwise it sends one `delete` per member of the delete ranges and one `set` with all members
+  of the insert ranges; the device accepts every `delete` (the member is there) and the list
+  becomes kept ++ inserted, a permutation of `lb`.
+In both cases nothing else of the planner state changes. -/
+theorem pan_members_converge (diff : Differ) (hd : GoodDiffer diff) (fuel : Nat) (st : St)
+    (la lb : List String) (n : String) (f : Fld)
+    (hA : ∀ x ∈ la, st.aGrpIdx x = none) (hB : ∀ y ∈ lb, st.bGrpIdx y = none)
+    (hla : la.Nodup) (hlb : lb.Nodup) :
+    ∃ cs l', equalizeList diff (fuel + 1) st la lb n f = st.emitAll cs ∧
+      runMem la (cs.filterMap memOf) = some l' ∧ l'.Perm lb ∧
+      (replaceInstead la.length (deletedCount (diff la.length lb.length
+          (fun i j => memberEq st (la.getD i "") (lb.getD j "")))) = true →
+        cs = [.editList n f lb] ∧ l' = lb) := by
+  obtain ⟨hv, _⟩ := hd la.length lb.length (fun i j => memberEq st (la.getD i "") (lb.getD j ""))
+  have hbound := validScript_bounds hv
+  unfold equalizeList
+  rw [hasEqLists_plain diff fuel st la lb (.rule n f) hA hB hbound]
+  cases hrep : replaceInstead la.length (deletedCount (diff la.length lb.length
+      (fun i j => memberEq st (la.getD i "") (lb.getD j ""))))
+  · -- incremental
+    simp only [Bool.false_eq_true, if_false]
+    have hvf := validScript_incremental hv hrep
+    obtain ⟨hrun, hperm⟩ := members_incremental la lb _ (memberEq_plain st la lb hA hB) _ hvf hla hlb
+    refine ⟨_, _, rfl, ?_, hperm, by intro h; cases h⟩
+    rw [listCmds_memOf]
+    exact hrun
+  · -- replace
+    simp only [if_true, Bool.false_eq_true, if_false, adaptGroups_plain st lb hB]
+    refine ⟨[.editList n f lb], lb, ?_, rfl, List.Perm.refl _, fun _ => ⟨rfl, rfl⟩⟩
+    simp [St.emit, St.emitAll]
+
+/-- The same for the member list of an address-group `g` that is equalised in place
+(`hasEqualizedLists` on the path of the group): `true` is answered exactly in the incremental
+branch, with the same requests (`delete …/static/member`, `set …/static`). -/
+theorem pan_group_members_converge (diff : Differ) (hd : GoodDiffer diff) (fuel : Nat) (st : St)
+    (la lb : List String) (g : String)
+    (hA : ∀ x ∈ la, st.aGrpIdx x = none) (hB : ∀ y ∈ lb, st.bGrpIdx y = none)
+    (hla : la.Nodup) (hlb : lb.Nodup)
+    (hok : (hasEqLists diff (fuel + 1) st la lb (.group g)).1 = true) :
+    ∃ cs l', (hasEqLists diff (fuel + 1) st la lb (.group g)).2 = st.emitAll cs ∧
+      runMem la (cs.filterMap memOf) = some l' ∧ l'.Perm lb := by
+  obtain ⟨hv, _⟩ := hd la.length lb.length (fun i j => memberEq st (la.getD i "") (lb.getD j ""))
+  have hbound := validScript_bounds hv
+  rw [hasEqLists_plain diff fuel st la lb (.group g) hA hB hbound] at hok ⊢
+  revert hok
+  cases hrep : replaceInstead la.length (deletedCount (diff la.length lb.length
+      (fun i j => memberEq st (la.getD i "") (lb.getD j ""))))
+  · intro _
+    simp only [Bool.false_eq_true, if_false]
+    have hvf := validScript_incremental hv hrep
+    obtain ⟨hrun, hperm⟩ := members_incremental la lb _ (memberEq_plain st la lb hA hB) _ hvf hla hlb
+    refine ⟨_, _, rfl, ?_, hperm⟩
+    rw [listCmds_memOf]
+    exact hrun
+  · intro hok
+    simp at hok
+
+/-! ## Reuse of groups (`pan_group_reuse_sound`) -/
+
+/-- **Group reuse is sound.**  `findGroupOnDevice` names a device group for a target group only
+if that device group is not yet `needed` — neither claimed for another target group nor changed
+by this plan — and its member list is identical to the target group's; it is the first such
+group; the only effect is that the device group becomes `needed` (it is never removed and never
+offered again) and the target group is not transferred but known under the device name.
+Otherwise no such device group exists and nothing changes.  And a device group that is
+`needed` is never changed by `hasEqualizedGroups`, which answers `true` for it only on behalf of
+the target group it was claimed for. -/
+theorem pan_group_reuse_sound (st : St) (gbi : Nat) :
+    (let ms := (st.bGrp[gbi]?.map (·.g.members)).getD []
+     (∃ i ga, st.aGrp[i]? = some ga ∧ ga.needed = false ∧ ga.g.members = ms ∧
+        (∀ j, j < i → ∀ g, st.aGrp[j]? = some g → ¬ (g.needed = false ∧ g.g.members = ms)) ∧
+        findGroupOnDevice st gbi = (ga.g.name, { st with
+          aGrp := modAt st.aGrp i (fun g => { g with needed := true }),
+          bGrp := modAt st.bGrp gbi (fun g => { g with needed := false, onDev := ga.g.name }) })) ∨
+     ((∀ g ∈ st.aGrp, ¬ (g.needed = false ∧ g.g.members = ms)) ∧ findGroupOnDevice st gbi = ("", st))) ∧
+    (∀ (recur : St → List String → List String → MPath → Bool × St) (gai : Nat),
+      (st.aGrp[gai]?.getD default).needed = true →
+        (eqGroups recur st gai gbi).2 = st ∧
+        ((eqGroups recur st gai gbi).1 = true →
+          (st.bGrp[gbi]?.getD default).onDev = (st.aGrp[gai]?.getD default).g.name)) :=
+  ⟨findGroupOnDevice_sound st gbi, fun recur gai h =>
+    ⟨eqGroups_needed_unchanged recur st gai gbi h, fun ht => (eqGroups_needed_true recur st gai gbi h ht).1⟩⟩
+
 /-! ## Generated names (`pan_uniq_names`) -/
 
 /-- **Generated names are fresh and pairwise distinct** (after the repair 86e0d84): the new
 names of the target's rules (resp. groups) avoid every name of the device, and no two target
 entries get the same name — provided the target's own names are distinct. -/
-theorem pan_uniq_names (hinj : SuffixInj) (taken names : List String) (hnd : names.Nodup) :
+theorem pan_uniq_names (taken names : List String) (hnd : names.Nodup) :
     (∀ n ∈ uniqNames taken names, n ∉ taken) ∧ (uniqNames taken names).Nodup ∧
       (uniqNames taken names).length = names.length :=
-  uniqNames_spec hinj taken names hnd
+  uniqNames_spec suffixInj taken names hnd
 
 /-- The statement is false of the loop as it was before the repair (new names were checked
 against the device's names only): device rule `x`, target rules `x` and `x-1` — both end up as
@@ -112,13 +205,13 @@ theorem pan_uniq_names_counterexample :
   ⟨["x"], ["x", "x-1"], by decide, by decide⟩
 
 /-- What held before the repair: every new name avoids the device's names. -/
-theorem pan_uniq_names_partial (hinj : SuffixInj) (taken names : List String) :
+theorem pan_uniq_names_partial (taken names : List String) :
     ∀ n ∈ uniqNamesOld taken names, n ∉ taken := by
   intro n hn
   simp only [uniqNamesOld, List.mem_map] at hn
   obtain ⟨x, _, rfl⟩ := hn
   split
-  · exact freshName_not_mem hinj taken x
+  · exact freshName_not_mem suffixInj taken x
   · rename_i h; simpa using h
 
 /-! ## Shape of the plan (`pan_objects_before_rules`, `pan_removals_last`) -/
@@ -175,6 +268,46 @@ theorem pan_prefix_wf (sh : Shared) (cs : List Cmd) (v : Vsys) (j : Nat)
     (execAll sh v (cs.take j)).2.1 = j ∧ (execAll sh v (cs.take j)).2.2 = none :=
   execAll_prefix sh cs v j hj
 
+/-! ## Resume (`pan_resume_converges`, C10, rule order) -/
+
+/-- **Resume.**  Cut the rule-order requests of a plan after any number `k` of them: the device
+has accepted them, its rule names `l` are still pairwise distinct (so it is a legitimate device
+state), and a second run — with whatever target rule names `bNames` (distinct) and whatever
+valid normalised script the new comparison yields — again generates fresh names and converges
+to the order its own script describes.  (The full C10 statement needs the convergence of the
+content as well; that part is checked end to end by the oracle from every cut.) -/
+theorem pan_resume_converges (diff : Differ) (hd : GoodDiffer diff) (a b : Vsys)
+    (ha : (ruleNames a.rules).Nodup) (hb : (ruleNames b.rules).Nodup) (k : Nat) :
+    ∃ l, runOrd (ruleNames a.rules) (((planVsys diff a b).filterMap ordOf).take k) = some l ∧ l.Nodup ∧
+      ∀ (bNames : List String) (eq : Nat → Nat → Bool) (rs : List Range), bNames.Nodup →
+        validScript eq l.length (uniqNames l bNames).length rs = true → normalised rs = true →
+        runOrd l (orderOps l (uniqNames l bNames) rs) = some (targetOrder l (uniqNames l bNames) rs) := by
+  obtain ⟨hrun, _⟩ := pan_rules_converge diff hd a b ha hb
+  obtain ⟨l, hl⟩ := runOrd_take _ _ _ k hrun
+  have hnd := runOrd_nodup _ _ _ hl ha
+  refine ⟨l, hl, hnd, ?_⟩
+  intro bNames eq rs hbn hv hn
+  exact order_converges l _ rs hv hn (uniqNames_nodup_append suffixInj l bNames hnd hbn)
+
+/-! ## Idempotence (`pan_idempotent`) -/
+
+/-- **No rule request for an identity script.**  If the comparison of the rule lists pairs
+every device rule with a target rule (all ranges are equal ranges — what Myers returns for a
+device whose rules already match the target's one by one), the plan contains no `delete`,
+`set` or `move` of a rule. -/
+theorem pan_idempotent_rules (diff : Differ) (a b : Vsys)
+    (h : ∀ r ∈ ruleScript diff a b, r.kind = .eq) :
+    (planVsys diff a b).filterMap ordOf = [] := by
+  rw [planVsys_ord, orderOps_identity _ _ _ h]
+
+/-- **No member request for an equal list.**  A source / destination list that already equals
+the target's (no groups involved) yields no request and leaves the planner state unchanged. -/
+theorem pan_idempotent_lists (diff : Differ) (hid : IdentityDiffer diff) (fuel : Nat) (st : St)
+    (la : List String) (n : String) (f : Fld)
+    (hA : ∀ x ∈ la, st.aGrpIdx x = none) (hB : ∀ y ∈ la, st.bGrpIdx y = none) :
+    equalizeList diff (fuel + 1) st la la n f = st :=
+  equalizeList_same diff hid fuel st la n f hA hB
+
 /-! ## Refuted statements -/
 
 def idDiff : Differ := fun n m _ => [⟨0, n, 0, m⟩]
@@ -205,9 +338,62 @@ theorem pan_sgroup_set_merges_counterexample :
       equiv (execAll [] sgDev (planVsys idDiff sgDev sgTgt)).1 sgTgt = false := by
   decide
 
+/-- The script Myers returns for the lists `[IP_1, g0]` / `[G0, IP_1]` (equality matrix
+`0110`: only `IP_1 = IP_1` and `g0 ~ G0`), the identity otherwise. -/
+def mixDiff : Differ := fun n m eq =>
+  if n == 2 && m == 2 && !eq 0 0 then [⟨0, 1, 0, 0⟩, ⟨1, 2, 0, 1⟩, ⟨2, 2, 1, 2⟩] else [⟨0, n, 0, m⟩]
+
+def mixDev : Vsys :=
+  { name := "v",
+    rules := [{ name := "r1", hdr := "h", src := ["IP_1", "g0"], dst := ["any"], srv := ["any"] }],
+    addrs := [{ name := "IP_1", val := "1" }, { name := "IP_2", val := "2" }],
+    groups := [{ name := "g0", members := ["IP_2"] }] }
+
+def mixTgt : Vsys :=
+  { name := "v",
+    rules := [{ name := "r1", hdr := "h", src := ["G0", "IP_1"], dst := ["any"], srv := ["any"] }],
+    addrs := [{ name := "IP_1", val := "1" }, { name := "IP_2", val := "2" }],
+    groups := [{ name := "G0", members := ["IP_2"] }] }
+
+/-- **F-C03e (known).**  "A second compare reports no change" is false for a list that mixes an
+address-group with other members: the device below is equivalent to the target from the start,
+yet the plan deletes member `IP_1` and adds it again (the sorted lists `[IP_1, g0]` and
+`[G0, IP_1]` cannot be aligned on both the address and the group); the device accepts, stays
+equivalent, and the next plan is the same again.  (The script for the 2×2 list is the one the
+real `myers.Diff` returns — valid and normalised; replayed on the real planner: corpus:F-C03e.) -/
+theorem pan_mixed_list_not_idempotent_counterexample :
+    wellFormed [] mixDev = true ∧ wellFormed [] mixTgt = true ∧ equiv mixDev mixTgt = true ∧
+      validScript (fun i j => [[false, true], [true, false]].getD i [] |>.getD j false) 2 2
+        [⟨0, 1, 0, 0⟩, ⟨1, 2, 0, 1⟩, ⟨2, 2, 1, 2⟩] = true ∧
+      normalised [⟨0, 1, 0, 0⟩, ⟨1, 2, 0, 1⟩, ⟨2, 2, 1, 2⟩] = true ∧
+      planVsys mixDiff mixDev mixTgt = [.delMem "r1" .src "IP_1", .addMem "r1" .src ["IP_1"]] ∧
+      (execAll [] mixDev (planVsys mixDiff mixDev mixTgt)).2 = (2, none) ∧
+      equiv (execAll [] mixDev (planVsys mixDiff mixDev mixTgt)).1 mixTgt = true ∧
+      planVsys mixDiff (execAll [] mixDev (planVsys mixDiff mixDev mixTgt)).1 mixTgt =
+        [.delMem "r1" .src "IP_1", .addMem "r1" .src ["IP_1"]] := by
+  decide
+
+/-! ## Non-vacuity: the hypotheses of the theorems are satisfiable on non-trivial values -/
+
+example : GoodDiffer trivialDiff := trivialDiff_good
+example : (ruleNames mixDev.rules).Nodup ∧ (ruleNames mixTgt.rules).Nodup := by decide
+/-- a two-rule device and a three-rule target: the order theorem applies and gives three names -/
+example : (targetOrder ["r1", "r2"] (uniqNames ["r1", "r2"] ["r1", "r2", "r3"])
+    [⟨0, 1, 0, 0⟩, ⟨1, 2, 0, 1⟩, ⟨2, 2, 1, 3⟩]) = ["r2", "r2-1", "r3"] := by decide
+example : runOrd ["r1", "r2"] (orderOps ["r1", "r2"] (uniqNames ["r1", "r2"] ["r1", "r2", "r3"])
+    [⟨0, 1, 0, 0⟩, ⟨1, 2, 0, 1⟩, ⟨2, 2, 1, 3⟩]) = some ["r2", "r2-1", "r3"] := by decide
+/-- a plain list in a state without groups: hypotheses of `pan_members_converge` -/
+example : (∀ x ∈ ["a", "b"], (initSt sgDev sgTgt []).aGrpIdx x = none) ∧ ["a", "b"].Nodup := by decide
+example : (execAll [] sgDev (planVsys idDiff sgDev sgTgt)).2.1 = 2 := by decide
+example : (match planDevice idDiff "d" "d" [sgDev] [sgTgt] with
+    | .ok l => l.map (·.1) == ["v"] | .error _ => false) = true := by decide
+
 def obligations : List Lean.Name := [
-  ``pan_rules_converge, ``pan_rules_converge_on_device, ``pan_uniq_names, ``pan_uniq_names_counterexample,
+  ``pan_rules_converge, ``pan_rules_converge_on_device, ``pan_members_converge, ``pan_group_members_converge,
+  ``pan_group_reuse_sound, ``pan_uniq_names, ``pan_uniq_names_counterexample,
   ``pan_uniq_names_partial, ``pan_objects_before_rules, ``pan_scope, ``pan_frame, ``pan_prefix_wf,
-  ``pan_sgroup_set_merges_counterexample, ``trivialDiff_good]
+  ``pan_resume_converges, ``pan_idempotent_rules, ``pan_idempotent_lists,
+  ``pan_sgroup_set_merges_counterexample, ``pan_mixed_list_not_idempotent_counterexample,
+  ``trivialDiff_good, ``suffixInj]
 
 end NA.PanOs
